@@ -17,22 +17,22 @@ CHECKS = {
  "C11": ("model_checking", "SCHED",
    "stateless DFS over all orders of connection opens/closes/aborts (each a scheduling point) on in-memory HTTP and WebSocket connections sharing one ConnectionGuard; interval-rule monitor against a reference occupancy counter",
    "Limits 0..2 (thorough 3), limit+1..limit+3 connections: HTTP requests being processed (parked handler), keep-alive follow-ups, WebSocket sessions ended by close frame / reset mid-call / with open subscription / protocol violation by a hand-written peer that keeps its socket open / upgrade whose response is never read / HTTP request aborted mid-call / server stop. Certain occupancy never exceeds the limit and agrees with ConnectionGuard::available_connections() seen inside running calls; every 429 must be justified by a possibly full server during the attempt; every ended WebSocket connection must have its session finished by quiescence; no handler runs for a refused request.",
-   "TowerService assembly over in-memory duplexes (not Server::start's accept loop); preemption only at points. Includes server-side closes for ping inactivity (virtual time). A change that merely postpones the server's own close of a still-open connection is outside what the monitor (and the property) can observe.",
+   "TowerService assembly over in-memory duplexes (not Server::start's accept loop); preemption only at points. Includes server-side closes for ping inactivity (virtual time), a peer frame above max_request_body_size, and the low-level assembly (ws::connect / http::call_with_service_builder with the permit in a ConnectionState). A change that merely postpones the server's own close of a still-open connection is outside what the monitor (and the property) can observe.",
    "DESIGN.md §6 C11"),
  "C10": ("model_checking", "SCHED",
    "stateless DFS over all release orders of peer actions, parked call handlers, stop()/handle drop and the library's cfg points on real in-memory WebSocket and HTTP/1.1 connections; trace monitor with a transport write log",
    "0-3 connections (WebSocket and keep-alive HTTP) with calls whose handler parks at scheduling points, optional subscription, second stop(), dropping all handles, peer close/drop racing the stop; stop() is a scheduling point of its own and so lands at every position of the history. On every execution: each started call whose peer stayed is answered and its handler ran to completion, nothing is written to a transport and no handler starts after stopped() resolved, stopped() resolves and every serve future ends.",
-   "Preemption only at points; 'handed to the transport' = write on the server half of the in-memory duplex. The TowerService assembly over in-memory duplexes is the main vehicle; additional SRV-TCP legs run the same histories against Server::start over loopback sockets (every schedule executed twice).",
+   "Preemption only at points; 'handed to the transport' = write on the server half of the in-memory duplex. The TowerService assembly over in-memory duplexes is the main vehicle; additional SRV-TCP legs run the same histories against Server::start over loopback sockets (every schedule executed twice). Peer actions racing the stop include unsolicited Pong/Ping frames and a frame above max_request_body_size.",
    "DESIGN.md §6 C10"),
  "C06": ("model_checking", "SCHED",
    "stateless DFS over all release orders of peer actions and puppet-handler steps on real in-memory WebSocket connections; interval-rule (linearizability-style) monitor against a reference set of active subscriptions and a slot counter",
    "Caps 0..2, 1-2 connections; peer scripts {subscribe x(cap+1...), unsubscribe own live / repeated / other connection's / never issued / wrong JSON type, close frame, abrupt drop, subscribe again after endings} x handler scripts {hold, return, reject, drop pending, watch closed(), clone + drop one clone}; whole tree when <= 10k (thorough 400k) executions, else <= 2 (thorough 3) deviations. Every unsubscribe answer must equal the reference 'active' value at some trace position between request and answer; every -32006 refusal must be justified by a full connection during the call; the slot count never exceeds the cap; is_closed() of a held sink equals not-active.",
-   "active = accepted (accept() returned to the handler) and not unsubscribed and connection open (on_session_closed unresolved) and handler holds >= 1 sink; preemption only at points. Also: string subscription ids, an id provider that reuses ids (dedicated judge), accept() answers above max_response_body_size, and the low-level ws::connect assembly.",
+   "active = accepted (accept() returned to the handler) and not unsubscribed and connection open (on_session_closed unresolved) and handler holds >= 1 sink; preemption only at points. Also: string subscription ids, an id provider that reuses ids (dedicated judge), accept() answers above max_response_body_size, a handler that drops its only sink and keeps running, and the low-level ws::connect assembly.",
    "DESIGN.md §6 C06"),
  "C04": ("model_checking", "SCHED",
    "stateless DFS over all release orders of peer actions, puppet-handler steps, stop() and the library's cfg points on real in-memory WebSocket connections; trace monitor",
    "Scenarios = peer scripts {subscribe, unsubscribe own/foreign, call, close frame, abrupt drop} x handler scripts {accept, reject, drop pending, send, try_send, is_closed, closed().await, clone, return none/error/close message} x stop x point masks (harness only / subscription-sink points / all server points), 1-2 connections, 1-2 subscriptions; whole tree when <= 15k (thorough 400k) executions, else <= 2 (thorough 3) deviations. Monitor: every notification frame carries a subscription id accepted on that connection and the right method name, comes after the accepting response, payloads are a prefix of the handler's successful sends in order, rejected/never-accepted subscriptions produce nothing, at most one closing notification, and after the server-exposed close instant (unsubscribe true seen by the peer / on_session_closed / stopped) every later-started send fails and is_closed() is true.",
-   "Preemption only at points; closing instants are those the server exposes. Also: accept() answers above max_response_body_size, stop with a call in flight, stop with a stalled writer (peer not reading), string subscription ids, the low-level ws::connect assembly.",
+   "Preemption only at points; closing instants are those the server exposes. Also: accept() answers above max_response_body_size, stop with a call in flight, stop with a stalled writer (peer not reading), string subscription ids, a peer frame above max_request_body_size, the low-level ws::connect assembly.",
    "DESIGN.md §6 C04"),
  "C18": ("model_checking", "HIST+SCHED",
    "explicit-state BFS over client operation histories (each event run on the real client to quiescence), canonical key = reference lifecycle state + the four table sizes read through the accessor hook; plus SCHED over drop-under-backpressure interleavings and long fixed repetitions",
@@ -42,7 +42,7 @@ CHECKS = {
  "C05": ("model_checking", "SCHED+ENUM",
    "enumeration of server push sequences x all groupings into arrays x buffer sizes x consumer scripts, each scenario explored over the complete tree of interleavings (stateless DFS under the controlled scheduler); bounded-queue reference model replayed over each execution's trace",
    "Two subscriptions + a pending call on the real async client; every push sequence of length <=3 (thorough 4) over 6 message kinds under every composition into consecutive single/array messages, buffer capacity {1,2} (thorough 3), 7 consumer scripts over {next, unsubscribe, drop}, numeric/string ids; all interleavings of deliveries and consumer actions; the reference model decides the exact items, order, end-of-stream reason (lagged/closed), number of unsubscribe requests naming the subscription on the wire, and the pending call's result.",
-   "Subscribe acknowledgements of the prelude are not scheduled; B's consumer is free-running; a single-call response is never packed into an array with notifications (not something a server does); when a close notification follows the lagging item inside the same array, 0 or 1 unsubscribe is accepted.",
+   "Subscribe acknowledgements of the prelude are not scheduled; B's consumer is free-running; a single-call response is never packed into an array with notifications (not something a server does); when a close notification follows the lagging item inside the same array, 0 or 1 unsubscribe is accepted. The lag-prone sequences also run on a client built through WsClientBuilder with an RPC middleware (set first / last).",
    "DESIGN.md §6 C05"),
  "C12": ("exploration", "ENUM+SCHED",
    "bounded-exhaustive enumeration of server reply sequences for batches (all permutations/subsets/duplications/foreign ids) through both clients against a positional reference; SCHED over delivery orders of concurrent batches",
@@ -52,12 +52,12 @@ CHECKS = {
  "C03": ("model_checking", "SCHED",
    "stateless DFS over all release orders of front-end operations, server answers (every permutation, duplication, omission) and the client's background tasks under a controlled scheduler",
    "For 2-3 concurrent operations out of {request, subscribe, batch, notification} x per-message answer pattern {ok, error, omitted, twice} x extra server messages {stray notifications, never-sent id, packed array} x id kind, every front-end start and every delivery is a scheduling point; the whole schedule tree is explored when it has <= 6k (thorough 300k) executions, else all schedules with <= 2 (thorough 3) deviations. On every execution each completed future must hold the payload of the delivered message whose id equals the id in that call's own wire bytes, must not complete before that delivery, an unanswered call stays pending, and RestartNeeded only appears after a message that matches nothing pending. The client's wire output is checked for JSON-RPC 2.0 well-formedness.",
-   "Interleaving granularity = harness points plus the send task's before_handle point (thorough); 4+ concurrent operations not covered. Also: a transport whose receive() is not cancellation safe racing the inactivity timer, batch ids crossing powers of ten after a warm-up, a batch reply packed behind notifications overflowing an unread subscription, a server that reuses subscription ids.",
+   "Interleaving granularity = harness points plus the send task's before_handle point (thorough); 4+ concurrent operations not covered. Also: a transport whose receive() is not cancellation safe racing the inactivity timer, batch ids crossing powers of ten after a warm-up, a batch reply packed behind notifications overflowing an unread subscription, a server that reuses subscription ids, server messages framed with every JSON whitespace character, and a real-time leg in which a call is awaited only after its deadline (a response taken in time must not turn into a timeout).",
    "DESIGN.md §6 C03"),
  "C09": ("model_checking", "SCHED+ENUM",
    "stateless DFS over all release orders of the real client's tasks under a controlled scheduler (hook points in harness transports, front-end actors, environment events and the library's send/read/shutdown tasks), with fault enumeration at every step",
    "For every client history (1-3 front-end operations; thorough up to 4) x every fault kind (n-th send fails, receive error, peer close, non-JSON message, unknown-id response, empty array, non-numeric id, empty object) x every injection position x both id kinds, the complete schedule tree is explored when it has <= 3k (thorough 200k) executions, else all schedules with <= 2 (thorough 3) deviations; on every execution: nothing pending at quiescence, every failed op carries the injected cause (never the 'reason could not be found' placeholder), streams ended, is_connected false, on_disconnect resolved with the cause, no panic. Every N-th and every violating schedule is re-executed and must reproduce bit for bit. Plus ~100 hostile server messages (u64-boundary ids, 10^4-element array, depth-200 nesting) x {0,1} pending calls followed by a sentinel call, and one real-time leg for RequestTimeout.",
-   "Interleaving granularity = the points (harness events, mock transport operations, cfg points in the three client tasks); preemption between two statements without a point and weak-memory effects are not explored. Virtual time: 'promptly' means 'before quiescence'.",
+   "Interleaving granularity = the points (harness events, mock transport operations, cfg points in the three client tasks); preemption between two statements without a point and weak-memory effects are not explored. Virtual time: 'promptly' means 'before quiescence'. Send faults are injected alone and together with a failing transport close().",
    "DESIGN.md §6 C09"),
  "C08": ("exploration", "ENUM",
    "bounded-exhaustive enumeration of (limit, response shape, payload size) and batch layouts; differential against a server with the limit disabled; every wire frame measured",
